@@ -1,6 +1,6 @@
 """Manifest text and SBOR schema column: ManifestText lexical layer (C31), manifest
 decompile/compile round trip (C30), SborSchema payload validation (C22), schema comparison (C23)."""
-import collections, glob, json, os, subprocess
+import collections, glob, json, os, subprocess, sys
 import core
 from core import tlc, tlc_must_pass, vh, ToolError, write_ndjson, read_ndjson, validate_calls
 
@@ -41,6 +41,32 @@ def validate_by_record(ctx, spec_dir, module, events, proj, name, full_sample=0,
     return sorted(bad), len(recs)
 
 
+def validate_parts(ctx, spec_dir, module, parts, proj, name, forged=(), forged_expect=(), chunks=None, **kw):
+    """One call-trace validation for several event lists at once: the distinct projected records of every part,
+    followed by forged records (binding self-test: exactly the indices `forged_expect` of them must be rejected).
+    Returns (list of bad event indices per part, number of distinct records)."""
+    recs, owner = [], []          # owner[i] = (part number, [event indices])
+    for pi, events in enumerate(parts):
+        groups = collections.OrderedDict()
+        for i, e in enumerate(events):
+            groups.setdefault(json.dumps(proj(e), sort_keys=True), []).append(i)
+        for k, idx in groups.items():
+            recs.append(json.loads(k))
+            owner.append((pi, idx))
+        ctx.cov["evaluations"] += len(events)
+    nreal = len(recs)
+    allrecs = recs + list(forged)
+    bad = validate_calls(spec_dir, module, allrecs, name, chunks=chunks or max(1, min(6, len(allrecs) // 300)), **kw)
+    got = [b - nreal for b in bad if b >= nreal]
+    if forged and got != list(forged_expect):
+        raise ToolError("binding self-test failed (%s): forged records rejected %s, expected %s" % (module, got, list(forged_expect)))
+    out = [[] for _ in parts]
+    for b in bad:
+        if b < nreal:
+            out[owner[b][0]] += owner[b][1]
+    return [sorted(x) for x in out], nreal
+
+
 # =============================================================================================
 # C31
 
@@ -64,6 +90,17 @@ def c31_key(ev, term):
         what.append("nondeterministic or inconsistent result")
     stage = "".join(sorted({s for s in ev["st"] if s in ("L", "P", "G")}))
     return "%s stage=%s term=%s %s" % ("+".join(what), stage or "-", term, "later-line" if ev["el"] > 1 else "line1")
+
+
+# generator error classes the alphabet reaches in the quick tier (measured on the unchanged tree; a change of the
+# case set that loses one of them is a tool error, not a silent loss of coverage)
+C31_GENERATOR_KINDS = ["G:" + k for k in (
+    "ArgumentCouldNotBeReadAsExpectedType", "BlobNotFound", "HeaderInstructionMustComeFirst", "IdValidationError",
+    "InstructionNotSupportedInManifestVersion", "IntentCannotBeUsedInValue", "IntentCannotBeUsedAsValueKind",
+    "NamedIntentCannotBeUsedAsValueKind", "InvalidAstValue", "InvalidBlobHash", "InvalidBytesHex", "InvalidDecimal",
+    "InvalidExpression", "InvalidGlobalAddress", "InvalidInternalAddress", "InvalidNonFungibleGlobalId",
+    "InvalidNonFungibleLocalId", "InvalidPackageAddress", "InvalidPreciseDecimal", "InvalidResourceAddress",
+    "InvalidSubTransactionId", "NameResolverError", "NamedIntentCannotBeUsedInValue", "UnexpectedValueKind")]
 
 
 def c31_project(e):
@@ -95,13 +132,18 @@ def C31(ctx):
         return {"rule": "replay of one stored text", "distinct_nontrivial": 1}
 
     # ---- G: TLC-enumerated token sequences x layouts
-    shift = ctx.seed % 3
     if q:
-        runs = [("pairs-mid", dict(consts={"K": 2, "R": 1, "AlphaName": '"mid"', "Shift": shift})),
+        # nothing here depends on the seed except the random bulk: every alphabet element alone under the full
+        # boundary-layout product, every pair touching the core alphabet, every core edit of every template
+        runs = [("singles+core-pairs", dict(consts={"Mode": '"cross"', "R": 0})),
                 ("template-edits-core", dict(consts={"Mode": '"tmpl"', "R": 1, "AlphaName": '"core"'})),
-                ("random-6", dict(consts={"K": 6, "R": 1, "Rand": "TRUE"}, simulate=100, depth=7, seed=ctx.seed))]
+                # CALL_METHOD Address(..) "f" ; edited with the FULL alphabet: every phrase / literal as argument,
+                # address, method name (reaches every generator error class the alphabet has)
+                ("call-template-edits-full", dict(consts={"Mode": '"tmpl"', "R": 0, "TemplateSet": "{2}"})),
+                ("random-6", dict(consts={"K": 6, "R": 1, "Rand": "TRUE"}, simulate=20, depth=7, seed=ctx.seed))]
     else:
         runs = [("pairs-full", dict(consts={"K": 2, "R": 2})),
+                ("singles+core-pairs", dict(consts={"Mode": '"cross"', "R": 0})),
                 ("triples-core", dict(consts={"K": 3, "R": 1, "AlphaName": '"core"'})),
                 ("template-edits-full", dict(consts={"Mode": '"tmpl"', "R": 2})),
                 ("random-6", dict(consts={"K": 6, "R": 1, "Rand": "TRUE"}, simulate=3000, depth=7, seed=ctx.seed))]
@@ -120,52 +162,92 @@ def C31(ctx):
         raise ToolError("too few C31 cases generated")
     cp, ep = ctx.wpath("lex-cases.ndjson"), ctx.wpath("lex-events.ndjson")
     write_ndjson(cp, cases)
-    vh(BIN, ["lex", "run", "threads=4"], stdin_path=cp, stdout_path=ep)
+    vh(BIN, ["lex", "run", "threads=8"], stdin_path=cp, stdout_path=ep)
     evs = read_ndjson(ep)
     os.unlink(cp)
     os.unlink(ep)
     if len(evs) != len(cases):
         raise ToolError("harness returned %d events for %d cases" % (len(evs), len(cases)))
-    bad, nrec = validate_by_record(ctx, "ManifestText", "TraceManifestLex", evs, c31_project, "c31",
-                                   full_sample=0 if q else 20000)
-    for b in bad[:40]:
-        ctx.violation(c31_key(evs[b], cases[b]["term"]),
-                      "tokens %s in layout at=%d term=%s: outcome %s" % (cases[b]["names"], cases[b]["at"], cases[b]["term"], json.dumps(evs[b])[:400]),
-                      {"case": cases[b], "outcome": evs[b]})
     # the regression family must really be in the case set (CRLF, error after line 1, each stage)
     fam = collections.Counter()
     stages = collections.Counter()
+    ekinds = collections.Counter()
+    bl = collections.Counter()       # boundary layout product actually exercised with an error on the payload line
     for c, e in zip(cases, evs):
+        for k in e["ek"]:
+            ekinds[k] += 1
         for st in set(e["st"]):
             stages[st] += 1
             if c["term"] == "CRLF" and e["el"] > 1 and st in ("L", "P", "G"):
                 fam[st] += 1
+        if len(c["names"]) == 1 and e["el"] >= 1:
+            bl[(c["at"], c["term"], c["terms"][-1] != "")] += 1
     for st in ("L", "P", "G"):
         if fam[st] < 20:
             raise ToolError("regression family missing: CRLF + %s error after line 1 (%d cases)" % (st, fam[st]))
     if stages["ok"] < 20:
         raise ToolError("no successfully compiling cases generated")
+    # every error class of the lexer and the parser, and the generator classes the alphabet can reach
+    need = ["L:UnexpectedEof", "L:UnexpectedChar", "L:InvalidIntegerLiteral", "L:InvalidIntegerType", "L:InvalidInteger",
+            "L:InvalidUnicode", "L:MissingUnicodeSurrogate",
+            "P:UnexpectedEof", "P:UnexpectedToken", "P:InvalidArgument", "P:InvalidNumberOfValues", "P:InvalidNumberOfTypes",
+            "P:UnknownEnumDiscriminator", "P:MaxDepthExceeded"] + C31_GENERATOR_KINDS
+    missing = [k for k in need if ekinds[k] == 0]
+    if missing:
+        raise ToolError("error classes never produced by the case set: %s (seen: %s)" % (missing, sorted(ekinds)))
+    want = {(at, t, last) for at in (1, 6, 7, 12) for t in ("LF", "CRLF", "CR", "MIX3", "MIX2", "LFCR") for last in (True, False)}
+    if not want <= set(bl):
+        raise ToolError("boundary layout product incomplete: missing %s" % sorted(want - set(bl))[:6])
     ctx.sample({"case": cases[0], "outcome": evs[0]})
     i_crlf = next(i for i, (c, e) in enumerate(zip(cases, evs)) if c["term"] == "CRLF" and e["el"] > 1 and "G" in e["st"])
     ctx.sample({"case": cases[i_crlf], "outcome": evs[i_crlf]})
     ctx.cov["traces_validated_against_impl"] += len(evs)
     hashes = {e["h"] for e in evs}
 
-    # ---- T: mutation traffic from the repository's .rtm corpus
+    # ---- T: mutation traffic from the repository's .rtm corpus: one round of ALL files per mutation kind, in
+    #      the order CRLF, CRLF + damaged token, CRLF + damaged last token, CRLF + damaged first token, other
+    #      endings, ... (the seed only drives positions and replacement tokens)
     files = rtm_corpus()
-    n = 3000 if q else 60000
+    n = len(files) * (5 if q else 72)
     mp, mo = ctx.wpath("lex-mut-in.json"), ctx.wpath("lex-mut-events.ndjson")
     with open(mp, "w") as f:
         f.write(json.dumps({"alphabet": alphabet, "files": files}) + "\n")
-    margs = ["lex", "mutate", "seed=%d" % ctx.seed, "n=%d" % n, "threads=4"]
+    margs = ["lex", "mutate", "seed=%d" % ctx.seed, "n=%d" % n, "threads=8"]
     vh(BIN, margs, stdin_path=mp, stdout_path=mo)
     lines = read_ndjson(mo)
     os.unlink(mo)
     meta, mev = lines[0]["meta"], lines[1:]
     if len(mev) != n or len(meta) != n:
         raise ToolError("mutation run incomplete")
-    mbad, nrec2 = validate_by_record(ctx, "ManifestText", "TraceManifestLex", mev, c31_project, "c31m",
-                                     full_sample=0 if q else 10000)
+    hows = collections.Counter(m[1] for m in meta)
+    mstages = collections.Counter(st for e in mev for st in set(e["st"]))
+    crlf_later = sum(1 for m, e in zip(meta, mev) if m[1].startswith("crlf") and e["el"] > 1)
+    if crlf_later < 20 or mstages["ok"] < 20 or min(hows[k] for k in ("crlf", "crlf+token", "crlf+last-token", "crlf+first-token", "endings")) < len(files):
+        raise ToolError("mutation traffic is degenerate (crlf later-line errors: %d, ok: %d, kinds: %s)" % (crlf_later, mstages["ok"], dict(hows)))
+    ctx.sample({"mutant_kinds": dict(hows), "outcome_stages": dict(mstages), "example_outcome": mev[1]})
+    ctx.cov["traces_validated_against_impl"] += len(mev)
+    hashes |= {e["h"] for e in mev}
+
+    # ---- one validation run: case outcomes, mutant outcomes, and the binding self-test (corrupted copies of
+    #      recorded outcomes, which the Trace module must reject)
+    good = [json.loads(json.dumps(c31_project(e))) for e in evs[:40]]
+    good[3]["k"][2]["d"][1][0] = "panic"
+    good[11]["k"][0]["same"] = False
+    good[17]["k"][3]["c"][1] = "panic"
+    good[23]["k"][1]["p"] = "panic"
+    exp = [3, 11, 17, 23]
+    if "err" in good[29]["k"][0]["c"]:
+        good[29]["k"][0]["dsame"][0] = False
+        exp.append(29)
+    (bad, mbad), nrec = validate_parts(ctx, "ManifestText", "TraceManifestLex", [evs, mev], c31_project, "c31",
+                                       forged=good, forged_expect=sorted(exp), chunks=1)
+    nrec2 = 0
+    if not q:
+        validate_by_record(ctx, "ManifestText", "TraceManifestLex", evs, c31_project, "c31x", full_sample=20000)
+    for b in bad[:40]:
+        ctx.violation(c31_key(evs[b], cases[b]["term"]),
+                      "tokens %s in layout at=%d term=%s: outcome %s" % (cases[b]["names"], cases[b]["at"], cases[b]["term"], json.dumps(evs[b])[:400]),
+                      {"case": cases[b], "outcome": evs[b]})
     for b in mbad[:40]:
         _, out = vh(BIN, margs + ["only=%d" % b], stdin_path=mp)
         t = json.loads(out)
@@ -173,43 +255,22 @@ def C31(ctx):
                       "mutant (%s) of %s: outcome %s" % (t["how"], t["file"], json.dumps(mev[b])[:400]),
                       {"text": t["text"], "file": t["file"], "how": t["how"], "outcome": mev[b]})
     os.unlink(mp)
-    hows = collections.Counter(m[1] for m in meta)
-    mstages = collections.Counter(st for e in mev for st in set(e["st"]))
-    crlf_later = sum(1 for m, e in zip(meta, mev) if m[1].startswith("crlf") and e["el"] > 1)
-    if crlf_later < 20 or mstages["ok"] < 20:
-        raise ToolError("mutation traffic is degenerate (crlf later-line errors: %d, ok: %d)" % (crlf_later, mstages["ok"]))
-    ctx.sample({"mutant_kinds": dict(hows), "outcome_stages": dict(mstages), "example_outcome": mev[1]})
-    ctx.cov["traces_validated_against_impl"] += len(mev)
-    hashes |= {e["h"] for e in mev}
-
-    # ---- binding self-test: corrupted recorded outcomes must be rejected by the Trace module
-    good = [json.loads(json.dumps(c31_project(e))) for e in evs[:40]]
-    good[3]["k"][2]["d"][1][0] = "panic"
-    good[11]["k"][0]["same"] = False
-    good[17]["k"][3]["c"][1] = "panic"
-    good[23]["k"][1]["p"] = "panic"
-    if "err" in good[29]["k"][0]["c"]:
-        good[29]["k"][0]["dsame"][0] = False
-        exp = [3, 11, 17, 23, 29]
-    else:
-        exp = [3, 11, 17, 23]
-    got = validate_calls("ManifestText", "TraceManifestLex", good, "c31self", chunks=1)
-    if got != exp:
-        raise ToolError("binding self-test failed: corrupted outcomes %s, rejected %s" % (exp, got))
 
     return {"exhaustive": False, "distinct_nontrivial": len(hashes),
             "cases_per_generator": per_run, "distinct_outcome_records": nrec + nrec2,
-            "regression_family_crlf_later_line": dict(fam), "stages": dict(stages),
+            "regression_family_crlf_later_line": dict(fam), "stages": dict(stages), "error_classes": dict(ekinds),
             "mutants": n, "corpus_files": len(files),
             "rule": "token sequences (<= 6 tokens over a %d-element alphabet incl. malformed literals and non-ASCII) enumerated by TLC "
-                    "(all pairs%s, all single edits of %d instruction templates, seeded random length-6 sequences), each rendered by the "
-                    "spec in 3 fixed layouts (LF single line; CRLF with the payload on line 7 of 12; CRLF spread over the last lines) "
+                    "(every single element under the full product payload line 1/6/7/12 x 6 terminator styles x terminated/unterminated "
+                    "last line; all pairs%s, all single edits of %d instruction templates, seeded random length-6 sequences), each rendered by the "
+                    "spec in 3 fixed layouts (LF single line; CRLF with the payload on line 7 of 12; CRLF spread over the last lines; "
+                    "templates and singles also CRLF line 6 of 12 and mixed line 6 of 6) "
                     "plus rotating layouts out of 672 (1/6/12 lines x payload line 1/6/7/12 x LF/CRLF/CR/LFCR/mixed x fillers), compiled for "
                     "all 4 manifest kinds twice with diagnostics in both styles twice under catch_unwind; plus %d seeded byte-/token-/"
                     "line-ending mutants of the %d .rtm files of the repository; every recorded outcome validated by "
                     "TraceManifestLex (OutcomeOk); distinct = distinct texts compiled" %
-                    (len(alphabet), " of a third of the alphabet" if q else " and all triples of the core alphabet",
-                     20, n, len(files))}
+                    (len(alphabet), " touching the 28-element core alphabet" if q else ", and all triples of the core alphabet",
+                     21, n, len(files))}
 
 # =============================================================================================
 # C30
@@ -246,27 +307,49 @@ def c30_what(e):
     return "names differ from expectation"
 
 
+def shape_set(*ranges):
+    """TLC cfg constant: an explicit finite set of shape numbers"""
+    return "{" + ", ".join(str(i) for lo, hi in ranges for i in range(lo, hi + 1)) + "}"
+
+
+ALL_OPS = ["TakeFromWorktop", "TakeNonFungiblesFromWorktop", "TakeAllFromWorktop", "ReturnToWorktop", "BurnResource",
+           "AssertWorktopContainsAny", "AssertWorktopContains", "AssertWorktopContainsNonFungibles", "AssertWorktopResourcesOnly",
+           "AssertWorktopResourcesInclude", "AssertNextCallReturnsOnly", "AssertNextCallReturnsInclude", "AssertBucketContents",
+           "CreateProofFromBucketOfAmount", "CreateProofFromBucketOfNonFungibles", "CreateProofFromBucketOfAll",
+           "CreateProofFromAuthZoneOfAmount", "CreateProofFromAuthZoneOfNonFungibles", "CreateProofFromAuthZoneOfAll", "CloneProof",
+           "DropProof", "PushToAuthZone", "PopFromAuthZone", "DropAuthZoneProofs", "DropAuthZoneRegularProofs",
+           "DropAuthZoneSignatureProofs", "DropNamedProofs", "DropAllProofs", "CallFunction", "CallMethod", "CallRoyaltyMethod",
+           "CallMetadataMethod", "CallRoleAssignmentMethod", "CallDirectVaultMethod", "AllocateGlobalAddress", "YieldToParent",
+           "YieldToChild", "VerifyParent"]
+
+
 def C30(ctx):
     q = ctx.quick
-    # ---- S: the manifest state machine against independent well-formedness statements + law predicate
-    r = tlc("ManifestText", "MCManifestAst", workers=8, timeout=1500, consts={"K": 2 if q else 3})
-    tlc_must_pass(r, "MCManifestAst", required_actions=C30_ACTIONS)
-    ctx.add_tlc(r)
-
-    # sizes of the shape table (printed by a constant-level run is overkill: derive from a tiny TLC run)
-    nshapes = 117 * 111  # NLeaves * (1 + NWraps + NWraps^2), asserted by MCManifestAst (ShapeLaws)
+    nleaves, nwraps = 117, 10            # asserted by MCManifestAst (ShapeLaws)
+    nshapes = nleaves * (1 + nwraps + nwraps * nwraps)
+    # the depth-boundary leaves (Nest 10/16/17/18/18/19) are the last 6 leaves: their singly and doubly
+    # wrapped shapes (depth 19 / 20 / 21 around the SBOR limit) are contiguous index ranges
+    nest_single = (nleaves + (nleaves - 6) * nwraps + 1, nleaves + nleaves * nwraps)
+    nest_double = (nleaves * (1 + nwraps) + (nleaves - 6) * nwraps * nwraps + 1, nshapes)
+    # ---- S: the manifest state machine against independent well-formedness statements + law predicate.
+    # quick: S and the structural generator are ONE TLC run (MCManifestAst extends the generator; the
+    # invariants are evaluated on exactly the states that are printed); coverage statistics are
+    # switched off there - that every instruction kind occurs is checked on the printed cases.
     if q:
-        lo = 1 + (ctx.seed * 37) % (nshapes - 400)
-        runs = [("struct-2", dict(consts={"K": 2})),
-                ("args-leaves", dict(consts={"Mode": '"args"', "ShapeLo": 1, "ShapeHi": 117})),
-                ("args-window", dict(consts={"Mode": '"args"', "ShapeLo": lo, "ShapeHi": lo + 249})),
-                ("args-with-objects", dict(consts={"Mode": '"args"', "ShapeLo": 1 + lo % 1000, "ShapeHi": 60 + lo % 1000, "Prefixed": "TRUE"})),
-                ("random-4", dict(consts={"Mode": '"rand"', "K": 4}, simulate=100, depth=5, seed=ctx.seed)),
-                ("escaped-names", dict(consts={"Mode": '"esc"', "K": 1}))]
+        lo = 1 + (ctx.seed * 37) % (nshapes - 200)
+        runs = [("struct-2+S", dict(module="MCManifestAst", cfg="MCGenManifestAst", consts={"K": 2})),
+                # every leaf (all value kinds, numeric / decimal extremes, odd strings, empty composites) and the
+                # complete wrapped depth-boundary family, plus a seeded window of ordinary wrapped shapes
+                ("args-leaves+depth-boundary+window", dict(consts={"Mode": '"args"', "ShapeSet": shape_set((1, nleaves), nest_single, nest_double, (lo, lo + 149))})),
+                ("args-with-objects", dict(consts={"Mode": '"args"', "ShapeSet": shape_set((1, 1), (1 + lo % 1000, 50 + lo % 1000)), "Prefixed": "TRUE"})),
+                ("random-4", dict(consts={"Mode": '"rand"', "K": 4}, simulate=80, depth=5, seed=ctx.seed))]
     else:
+        r = tlc("ManifestText", "MCManifestAst", workers=8, timeout=1500, consts={"K": 3})
+        tlc_must_pass(r, "MCManifestAst", required_actions=C30_ACTIONS)
+        ctx.add_tlc(r)
         runs = [("struct-3", dict(consts={"K": 3})),
-                ("args-all-shapes", dict(consts={"Mode": '"args"', "ShapeLo": 1, "ShapeHi": nshapes})),
-                ("args-with-objects", dict(consts={"Mode": '"args"', "ShapeLo": 1, "ShapeHi": 3000, "Prefixed": "TRUE"})),
+                ("args-all-shapes", dict(consts={"Mode": '"args"', "ShapeSet": shape_set((1, nshapes))})),
+                ("args-with-objects", dict(consts={"Mode": '"args"', "ShapeSet": shape_set((1, 3000), nest_single, nest_double), "Prefixed": "TRUE"})),
                 ("random-5", dict(consts={"Mode": '"rand"', "K": 5}, simulate=6000, depth=6, seed=ctx.seed)),
                 ("escaped-names", dict(consts={"Mode": '"esc"', "K": 2}))]
     # Each generator run is streamed: TLC output -> case file -> harness -> event file, read back line by
@@ -279,9 +362,16 @@ def C30(ctx):
     reservoir, sample_pairs = [], []
     cp, ep = ctx.wpath("rt-cases.ndjson"), ctx.wpath("rt-events.ndjson")
     for name, kw in runs:
-        g = tlc("ManifestText", "GenManifestAst", workers=8, coverage=False, timeout=2400, heap="6g", **kw)
+        kw = dict(kw)
+        module = kw.pop("module", "GenManifestAst")
+        g = tlc("ManifestText", module, workers=8, coverage=False, timeout=2400, heap="6g", **kw)
         if not g.ok:
+            if module == "MCManifestAst":
+                sys.stderr.write(g.out[-4000:])
+                raise ToolError("TLC run failed for MCManifestAst (violated=%s)" % g.violated)
             raise ToolError("GenManifestAst %s failed: %s" % (name, g.out[-1500:]))
+        if module == "MCManifestAst":
+            ctx.add_tlc(g)
         seen, n = set(), 0
         with open(cp, "w") as f:
             for line in g.out.splitlines():
@@ -311,7 +401,7 @@ def C30(ctx):
                         ok_rt += 1
                 distinct_h.add(hashlib.md5(json.dumps([c["fam"], c["pre"], c["children"], c["ins"]], sort_keys=True).encode()).digest()[:8])
                 pr = c30_project(e)
-                key = (name, json.dumps(pr, sort_keys=True))
+                key = ("escaped-names" if c["names"] in ("quote", "backslash", "newline") else name, json.dumps(pr, sort_keys=True))
                 gq = groups.get(key)
                 if gq is None:
                     groups[key] = [1, c, e]
@@ -330,41 +420,24 @@ def C30(ctx):
         os.unlink(ep)
     if total < 2000:
         raise ToolError("too few C30 cases generated")
-    keys = list(groups)
-    recs = [json.loads(k[1]) for k in keys]
-    bad_recs = validate_calls("ManifestText", "TraceManifestAst", recs, "c30", chunks=max(1, min(8, len(recs) // 150)))
-    ctx.cov["evaluations"] += total
-    nrec = len(recs)
-    if reservoir:
-        b2 = validate_calls("ManifestText", "TraceManifestAst", reservoir, "c30-s", chunks=8)
-        badset = {keys[b][1] for b in bad_recs}
-        if any(json.dumps(reservoir[i], sort_keys=True) not in badset for i in b2):
-            raise ToolError("per-record and per-event validation disagree")
-    nviol = collections.Counter()
-    for b in bad_recs:
-        name, _ = keys[b]
-        cnt, c, e = groups[keys[b]]
-        if name == "escaped-names":
-            key = ESC_KEY
-        else:
-            key = "round trip: %s (last instruction %s)" % (c30_what(e), c["ins"][-1]["op"])
-        nviol[key] += cnt
-        ctx.violation(key, "manifest %s names=%s (%d cases with this outcome): %s" % ([i["op"] for i in c["ins"]], c["names"], cnt, c30_what(e)),
-                      {"case": c, "outcome": e})
     # non-vacuity of the generated set
-    missing = [o for o in ("TakeFromWorktop", "ReturnToWorktop", "BurnResource", "CloneProof", "PushToAuthZone", "CallFunction",
-                           "CallMethod", "CallRoyaltyMethod", "CallMetadataMethod", "CallRoleAssignmentMethod", "CallDirectVaultMethod",
-                           "AllocateGlobalAddress", "YieldToParent", "YieldToChild", "VerifyParent", "AssertBucketContents",
-                           "AssertWorktopResourcesOnly", "AssertNextCallReturnsInclude", "DropAllProofs", "PopFromAuthZone") if ops[o] == 0]
+    missing = [o for o in ALL_OPS if ops[o] == 0]
     if missing:
         raise ToolError("instruction kinds never generated: %s" % missing)
     if any(kinds[k] == 0 for k in ("V1", "SystemV1", "V2", "SubintentV2")):
         raise ToolError("a manifest kind was never built: %s" % dict(kinds))
     if ok_rt < 1000:
         raise ToolError("hardly any manifest round-tripped: harness or generator broken")
+    keys = list(groups)
+    if not any(k[0] == "escaped-names" for k in keys):
+        raise ToolError("escaped-name family missing")
+    depths = {groups[k][2]["depth"] for k in keys}
+    if not {19, 20} <= depths:
+        raise ToolError("depth-boundary family missing (argument depths seen: %s)" % sorted(depths))
     for sp_ in sample_pairs:
         ctx.sample(sp_)
     ctx.cov["traces_validated_against_impl"] += total
+    ctx.cov["evaluations"] += total
 
     # ---- T: repository corpus (.rtm) and, thorough, the executed transaction scenarios
     files = rtm_corpus()
@@ -388,29 +461,58 @@ def C30(ctx):
         if len(sev) < 100:
             raise ToolError("scenario run produced only %d transactions" % len(sev))
     tev = cev + sev
-    tbad, nrec2 = validate_by_record(ctx, "ManifestText", "TraceManifestAst", tev, c30_project, "c30t")
-    for b in tbad[:20]:
-        e = tev[b]
-        ctx.violation("round trip of %s: %s" % ("corpus file" if b < len(cev) else "scenario manifest", c30_what(e)),
-                      "%s: %s" % (e["file"], c30_what(e)), {"source": e["file"], "outcome": e})
+    tgroups = collections.OrderedDict()
+    for i, e in enumerate(tev):
+        tgroups.setdefault(json.dumps(c30_project(e), sort_keys=True), []).append(i)
+    tkeys = list(tgroups)
     ctx.sample({"corpus_file": cev[0]["file"], "outcome": cev[0]})
     ctx.cov["traces_validated_against_impl"] += len(tev)
+    ctx.cov["evaluations"] += len(tev)
 
-    # ---- binding self-test: corrupted recorded outcomes must be rejected
-    badk = {keys[b] for b in bad_recs}
-    recs = [json.loads(k[1]) for k in keys if k not in badk and groups[k][2]["dec_exp"] == "ok" and groups[k][2]["names"] == "default"
-            and groups[k][2]["depth"] <= 19][:12]
-    if len(recs) < 12:
+    # ---- one validation run: generated-case records, corpus / scenario records, and the binding
+    #      self-test (forged copies of accepted-looking records, which must be rejected)
+    recs = [json.loads(k[1]) for k in keys]
+    trecs = [json.loads(k) for k in tkeys]
+    forged = [json.loads(k[1]) for k in keys if groups[k][2]["dec_exp"] == "ok" and groups[k][2]["names"] == "default"
+              and groups[k][2]["depth"] <= 19 and all(p_.get("eq") for p_ in groups[k][2]["per"])][:12]
+    if len(forged) < 12:
         raise ToolError("not enough accepted records for the self-test")
-    recs[1]["per"][0]["eq_ins"] = False
-    recs[3]["per"][-1]["eq"] = False
-    recs[5]["per"][0]["comp"] = "err"
-    recs[7]["exp"]["buckets"] = recs[7]["exp"]["buckets"] + ["bucket99"]
-    recs[9]["per"][0]["fix"] = False
-    recs[10]["per"][0]["dec"] = "panic"
-    got = validate_calls("ManifestText", "TraceManifestAst", recs, "c30self", chunks=1)
+    forged[1]["per"][0]["eq_ins"] = False
+    forged[3]["per"][-1]["eq"] = False
+    forged[5]["per"][0]["comp"] = "err"
+    forged[7]["exp"]["buckets"] = forged[7]["exp"]["buckets"] + ["bucket99"]
+    forged[9]["per"][0]["fix"] = False
+    forged[10]["per"][0]["dec"] = "panic"
+    allrecs = recs + trecs + forged
+    allbad = validate_calls("ManifestText", "TraceManifestAst", allrecs, "c30", chunks=max(1, min(8, len(allrecs) // 400)))
+    n1, n2 = len(recs), len(recs) + len(trecs)
+    bad_recs = [b for b in allbad if b < n1]
+    tbad = [b - n1 for b in allbad if n1 <= b < n2]
+    got = [b - n2 for b in allbad if b >= n2]
     if got != [1, 3, 5, 7, 9, 10]:
         raise ToolError("binding self-test failed: rejected %s" % got)
+    nrec, nrec2 = len(recs), len(trecs)
+    if reservoir:
+        b2 = validate_calls("ManifestText", "TraceManifestAst", reservoir, "c30-s", chunks=8)
+        badset = {keys[b][1] for b in bad_recs}
+        if any(json.dumps(reservoir[i], sort_keys=True) not in badset for i in b2):
+            raise ToolError("per-record and per-event validation disagree")
+    nviol = collections.Counter()
+    for b in bad_recs:
+        name, _ = keys[b]
+        cnt, c, e = groups[keys[b]]
+        if name == "escaped-names":
+            key = ESC_KEY
+        else:
+            key = "round trip: %s (last instruction %s)" % (c30_what(e), c["ins"][-1]["op"])
+        nviol[key] += cnt
+        ctx.violation(key, "manifest %s names=%s (%d cases with this outcome): %s" % ([i["op"] for i in c["ins"]], c["names"], cnt, c30_what(e)),
+                      {"case": c, "outcome": e})
+    for b in tbad[:20]:
+        i = tgroups[tkeys[b]][0]
+        e = tev[i]
+        ctx.violation("round trip of %s: %s" % ("corpus file" if i < len(cev) else "scenario manifest", c30_what(e)),
+                      "%s: %s" % (e["file"], c30_what(e)), {"source": e["file"], "outcome": e})
 
     distinct = len(distinct_h)
     return {"exhaustive": False, "distinct_nontrivial": distinct, "cases_per_generator": per_run,
@@ -440,9 +542,10 @@ def C23(ctx):
     ctx.add_tlc(r)
     universe = int(r.printed_raw("U")[0])
     # ---- G: schema pairs from TLC, verdicts from the real comparison
-    # quick: the 4 bases of one residue class mod 4 (chosen by the seed); thorough: all 16 bases
-    bm = {"BaseMod": 4, "BaseRem": ctx.seed % 4} if q else {"BaseMod": 1, "BaseRem": 0}
-    runs = [("single-edits", dict({"Depth": 1, "Sample": 1}, **bm)), ("double-edits", dict({"Depth": 2, "Sample": 12 if q else 2}, **bm))]
+        # all single edits of all 16 bases in both tiers (this is the boundary product: every validation bound
+    # in {none, 0..3} x lower / upper x kind, every variant / field / reference edit); the double edits are
+    # the bulk: a 1/40 sample in quick, half of them in thorough
+    runs = [("single-edits", {"Depth": 1, "Sample": 1}), ("double-edits", {"Depth": 2, "Sample": 40 if q else 2})]
     pairs, per_run = [], {}
     for name, consts in runs:
         g = tlc("SborSchema", "GenSborSchema", workers=8, coverage=False, timeout=2400, consts=consts)
@@ -452,7 +555,7 @@ def C23(ctx):
         per_run[name] = len(b)
         pairs += b
     pairs = dedupe(pairs)
-    if len(pairs) < 150:
+    if len(pairs) < 575:
         raise ToolError("too few schema pairs")
     pp = ctx.wpath("schema-pairs.ndjson")
     write_ndjson(pp, pairs)
@@ -463,7 +566,46 @@ def C23(ctx):
         raise ToolError("compare returned %d events for %d pairs" % (len(evs), len(pairs)))
     # ---- TLC decides: reported extension / equality must be sound over the payload universe
     proj = [{k: e[k] for k in ("base", "new", "schemas_valid", "eq", "ext", "eqn", "extn")} for e in evs]
-    bad = validate_calls("SborSchema", "TraceSborSchema", proj, "c23", chunks=12, timeout=3000, heap="3g")
+    # binding self-test in the same validation run: "valid extension" claimed for pairs the real comparison
+    # rejected - appended after the real records
+    rej = [json.loads(json.dumps(p)) for p, e in zip(proj, evs) if e["ext"] == "invalid" and e["extn"] == "invalid" and e["eq"] == "invalid"][:24]
+    for p in rej:
+        p["ext"] = "valid"
+    # Pairs are validated in groups sharing the base schema (the set of payloads the base accepts is then
+    # computed once per group by TLC); a rejected group is re-validated pair by pair to find the culprit.
+    from concurrent.futures import ThreadPoolExecutor
+
+    def groups_of(idx_list, size):
+        by_base = collections.OrderedDict()
+        for i in idx_list:
+            by_base.setdefault(json.dumps(allp[i]["base"], sort_keys=True), []).append(i)
+        out = []
+        for _, idx in by_base.items():
+            for a in range(0, len(idx), size):
+                out.append(idx[a:a + size])
+        return out
+    allp = proj + rej
+    grp = groups_of(range(len(proj)), 12) + [[len(proj) + j] for j in range(len(rej))]
+    gev = [{"base": allp[g[0]]["base"], "news": [{k: allp[i][k] for k in ("new", "schemas_valid", "eq", "ext", "eqn", "extn")} for i in g]} for g in grp]
+    P = 8
+    buckets = [list(range(b, len(gev), P)) for b in range(P)]
+
+    def run_bucket(b):
+        if not buckets[b]:
+            return []
+        bb = validate_calls("SborSchema", "TraceSborSchema", [gev[i] for i in buckets[b]], "c23-%d" % b, chunks=1, timeout=3000, heap="2g")
+        return [buckets[b][x] for x in bb]
+    with ThreadPoolExecutor(max_workers=P) as ex:
+        badg = sorted(x for r_ in ex.map(run_bucket, range(P)) for x in r_)
+    suspects = [i for g in badg for i in grp[g]]
+    allbad = []
+    if suspects:
+        sb = validate_calls("SborSchema", "TraceSborSchema", [allp[i] for i in suspects], "c23-p", chunks=4, timeout=3000, heap="2g")
+        allbad = sorted(suspects[x] for x in sb)
+        if {g for g in badg} != {gi for gi, g in enumerate(grp) if any(i in set(allbad) for i in g)}:
+            raise ToolError("grouped and pairwise validation disagree")
+    bad = [b for b in allbad if b < len(proj)]
+    got = [b for b in allbad if b >= len(proj)]
     ctx.cov["evaluations"] += len(evs)
     ctx.cov["traces_validated_against_impl"] += len(evs)
 
@@ -488,7 +630,7 @@ def C23(ctx):
             stats["valid_only_with_name_changes_allowed"] += 1
         else:
             stats["reported_invalid"] += 1
-    if min(stats["reported_equal"], stats["reported_extension_only"], stats["reported_invalid"]) < 8:
+    if min(stats["reported_equal"], stats["reported_extension_only"], stats["reported_invalid"]) < 20:
         raise ToolError("verdict classes degenerate: %s" % dict(stats))
     ctx.sample({"pair": {"base": evs[1]["base"], "new": evs[1]["new"]}, "verdicts": edit_summary(evs[1])["verdicts"]})
     k = next(i for i, e in enumerate(evs) if e["ext"] == "valid" and e["eq"] == "invalid")
@@ -496,11 +638,6 @@ def C23(ctx):
     pk = [e for e in evs if "panic" in (e["eq"], e["ext"], e["eqn"], e["extn"])]
     if pk:
         ctx.sample({"comparison_panic_example": edit_summary(pk[0]), "note": "a panicking comparison reports nothing; not a soundness violation"})
-    # ---- binding self-test: claim "valid extension" for pairs the real comparison rejected
-    rej = [json.loads(json.dumps(p)) for p, e in zip(proj, evs) if e["ext"] == "invalid" and e["extn"] == "invalid" and e["eq"] == "invalid"][:24]
-    for p in rej:
-        p["ext"] = "valid"
-    got = validate_calls("SborSchema", "TraceSborSchema", rej, "c23self", chunks=2, timeout=3000, heap="3g")
     if len(got) < len(rej) // 3:
         raise ToolError("binding self-test failed: only %d of %d forged verdicts rejected" % (len(got), len(rej)))
     nontrivial = sum(1 for e in evs if "valid" in (e["eq"], e["ext"], e["eqn"], e["extn"]))
@@ -511,9 +648,9 @@ def C23(ctx):
                     "swap fields, widen / narrow / drop / add validations, redirect child references, replace types by Any / Bool / U8 / "
                     "unit / array, rename types / fields / variants, append unreachable types); both real schemas built and validated, "
                     "compare_single_type_schemas run with require_equality() and allow_extension() (also with all name changes allowed); "
-                    "(quick tier: the 4 bases of one residue class mod 4) for every reported valid extension TLC checks Valid(old) => Valid(new), for every reported equality Valid(old) <=> "
+                    "for every reported valid extension TLC checks Valid(old) => Valid(new), for every reported equality Valid(old) <=> "
                     "Valid(new), over the complete bounded payload universe (every value tree of <= 3 nodes plus 4-node chains / triples / "
-                    "two-cell lists); distinct = pairs with at least one 'valid' verdict" % ("a 1/12 sample of" if q else "half of all")}
+                    "two-cell lists); distinct = pairs with at least one 'valid' verdict" % ("a 1/40 sample of" if q else "half of all")}
 
 
 # =============================================================================================
@@ -533,13 +670,23 @@ def C22(ctx):
     ctx.add_tlc(r)
 
     # ---- G: (schema, value, Valid) cases from TLC against the real payload validator
-    consts = {"BaseMod": 4, "BaseRem": ctx.seed % 4, "Stride": 60, "Off": ctx.seed % 60} if q else \
-             {"BaseMod": 1, "BaseRem": 0, "Stride": 25, "Off": ctx.seed % 25}
-    g = tlc("SborSchema", "GenSborValid", workers=8, coverage=False, timeout=2400, heap="6g", consts=consts)
-    if not g.ok:
-        raise ToolError("GenSborValid failed: %s" % g.out[-1500:])
-    cases = g.printed("B")
-    del g
+    # quick: (a) all 16 bases and ALL their validation-bound edits, with every valid value and every near miss
+    # (value rejected only by a bound) - the boundary product, independent of the seed; (b) bulk: all edits of the
+    # bases of one residue class, invalid values sampled.  thorough: all edits of all bases.
+    if q:
+        gruns = [{"EditSet": '"val"', "Stride": 150, "Off": ctx.seed % 150},
+                 {"BaseMod": 4, "BaseRem": ctx.seed % 4, "Stride": 90, "Off": ctx.seed % 90}]
+    else:
+        gruns = [{"BaseMod": 1, "BaseRem": 0, "Stride": 25, "Off": ctx.seed % 25}]
+    consts = gruns[-1]
+    cases = []
+    for gc in gruns:
+        g = tlc("SborSchema", "GenSborValid", workers=8, coverage=False, timeout=2400, heap="6g", consts=gc)
+        if not g.ok:
+            raise ToolError("GenSborValid failed: %s" % g.out[-1500:])
+        cases += g.printed("B")
+        del g
+    cases = dedupe(cases)
     nvalid = sum(1 for c in cases if c["exp"])
     if len(cases) < 3000 or nvalid < 500 or len(cases) - nvalid < 500:
         raise ToolError("degenerate validator cases: %d cases, %d valid" % (len(cases), nvalid))
@@ -574,14 +721,21 @@ def C22(ctx):
 
     # ---- T: engine types: built values (+ harvested event payloads, thorough) and their mutants
     sp, ep = ctx.wpath("schemas.ndjson"), ctx.wpath("type-events.ndjson")
-    vh(BIN, ["schema", "types", "seed=%d" % ctx.seed, "mutants=%d" % (25 if q else 300), "harvest=%d" % (0 if q else 1), "schemas=" + sp],
+    vh(BIN, ["schema", "types", "seed=%d" % ctx.seed, "mutants=%d" % (10 if q else 300), "harvest=%d" % (0 if q else 1), "schemas=" + sp],
        stdout_path=ep, timeout=3000)
     lines = read_ndjson(ep)
     os.unlink(ep)
     end, evs = lines[-1], lines[:-1]
     if not end.get("end") or end["types"] < 20:
         raise ToolError("type run incomplete: %s" % end)
-    bad, nrec = validate_by_record(ctx, "SborSchema", "TraceSborSchema", evs, c22_project, "c22", timeout=3000, heap="3g", env={"SCHEMAS": sp})
+    # one validation run: all distinct event records + the binding self-test (forged verdicts on encoded values)
+    enc0 = [e for e in evs if e["origin"] == "encoded"]
+    forged = [json.loads(json.dumps(c22_project(e))) for e in enc0[:10]]
+    forged[2]["validator"] = "err"
+    forged[5]["roundtrip"] = False
+    forged[7]["tree"]["k"] = "Bool" if forged[7]["tree"]["k"] != "Bool" else "U8"
+    (bad,), nrec = validate_parts(ctx, "SborSchema", "TraceSborSchema", [evs], c22_project, "c22", forged=forged, forged_expect=[2, 5, 7],
+                                  timeout=3000, heap="3g", env={"SCHEMAS": sp})
     nviol = collections.Counter()
     for b in bad:
         e = evs[b]
@@ -616,29 +770,22 @@ def C22(ctx):
     ctx.sample({"type_event": {k: enc[3][k] for k in ("type", "origin", "validator", "typed", "roundtrip", "size")}, "tree": enc[3]["tree"]})
     ctx.sample({"mutant_classes(untyped,validator,typed)": {"/".join(k): v for k, v in mut.items()}})
     ctx.cov["traces_validated_against_impl"] += len(evs)
-    # binding self-test (T): a forged verdict on an encoded value must be rejected
-    forged = [json.loads(json.dumps(c22_project(e))) for e in enc[:10]]
-    forged[2]["validator"] = "err"
-    forged[5]["roundtrip"] = False
-    forged[7]["tree"]["k"] = "Bool" if forged[7]["tree"]["k"] != "Bool" else "U8"
-    got = validate_calls("SborSchema", "TraceSborSchema", forged, "c22self", chunks=1, env={"SCHEMAS": sp}, heap="3g")
     os.unlink(sp)
-    if got != [2, 5, 7]:
-        raise ToolError("binding self-test (type events) failed: %s" % got)
     distinct = len({json.dumps(c22_project(e), sort_keys=True) for e in evs}) + len(cases)
     return {"exhaustive": False, "distinct_nontrivial": distinct, "validator_cases": len(cases), "validator_cases_expected_valid": nvalid,
             "engine_types": end["types"], "encoded_values": len(enc), "mutants": len(evs) - len(enc),
             "distinct_type_event_records": nrec, "payloads_over_size_cap": end["skipped_large"], "violations_by_key": dict(nviol),
-            "rule": "G: for %d small schemas (bases and single edits of GenSborSchema) every universe value the specification says is "
-                    "valid plus a rotating 1/%d sample of the others, encoded as real basic SBOR payloads and judged by "
+            "rule": "G: for %d small schemas (all 16 bases with all their validation-bound edits; all other single edits for %s) every universe "
+                    "value the specification says is valid, every value rejected only by a validation bound, plus a rotating 1/%d sample of the others, encoded as real basic SBOR payloads and judged by "
                     "validate_payload_against_schema - verdict must equal Valid; T: %d engine / Scrypto types (addresses, Own wrappers, "
                     "decimals, ids, keys and hashes with length validation, access rules, metadata values, vault substates, consensus "
                     "config, events, fee structures, std composites, a struct with every primitive kind), their generated schemas "
                     "exported by the harness, %d built%s values encoded -> untyped value tree, validator verdict, typed decode round "
-                    "trip, and %d seeded mutants per value; TraceSborSchema recomputes Valid: encoded values valid and round-tripping, "
+                    "trip, and per value the deterministic boundary mutants (one byte short / long, each of the first 8 bytes +-1) plus %d seeded mutants; TraceSborSchema recomputes Valid: encoded values valid and round-tripping, "
                     "typed-decode Ok => Valid, validator verdict = Valid; distinct = distinct event records + validator cases" %
-                    (len({json.dumps(c["schema"], sort_keys=True) for c in cases}), consts["Stride"], end["types"], len(enc),
-                     "" if q else " and scenario-harvested", 25 if q else 300)}
+                    (len({json.dumps(c["schema"], sort_keys=True) for c in cases}), "the bases of one residue class mod 4" if q else "all bases",
+                     consts["Stride"], end["types"], len(enc),
+                     "" if q else " and scenario-harvested", 10 if q else 300)}
 
 
 
